@@ -173,10 +173,9 @@ def rule_transition(ctx):
     v = ev.function(ta)
     # the theory's formulas: one image under F per predicate; F is a named function, a closure, or a later-extracted helper
     preds = F_ = None
-    if v[:2] == ("ctor", "Theory"):
-        fm = dict(v[2]).get("formulas")
-        if isinstance(fm, tuple) and fm[:2] == ("call", "Iterator::map") and len(fm[2]) == 2:
-            preds, F_ = fm[2]
+    fm = dict(v[2]).get("formulas") if v[:2] == ("ctor", "Theory") else v      # a struct literal, or collected through FromIterator for Theory
+    if isinstance(fm, tuple) and fm[:2] == ("call", "Iterator::map") and len(fm[2]) == 2:
+        preds, F_ = fm[2]
     if F_ is None:
         raise AnalysisGap("transition_axioms: the formulas of the theory are not a map over the predicates")
     cands = [k for k in fx.bodies if F_[0] == "fn" and (k == F_[1] or k.endswith("::" + F_[1])) and len(fx.bodies[k]) == 1]
@@ -193,7 +192,9 @@ def rule_transition(ctx):
     tp = ("call", "There::there", (("call", "Predicate::to_formula", (p,)),))
     ref = ("call", "Formula::quantify", (("ctor", "Formula::BinaryFormula", (("connective", ("ctor", "BinaryConnective::Implication", ())), ("lhs", hp), ("rhs", tp))),
                                           ("ctor", "Quantifier::Forall", ()), ("call", "Formula::free_variables", (hp,))))
-    ctx.add("TPL", "transition", tv == ref, ctx.site(t), "transition(p) = forall free(hp) (here(p(X..)) -> there(p(X..)))", construct=tv)
+    # hp and tp are copies of one atom p(X1..Xn): the universal closure of the implication binds the same variables as `forall free(hp)`
+    ref2 = ("call", "Formula::universal_closure", (ref[2][0],))
+    ctx.add("TPL", "transition", tv in (ref, ref2), ctx.site(t), "transition(p) = forall free(hp) (here(p(X..)) -> there(p(X..)))", construct=tv)
     sources = set()
     if preds is not None:
         for x in sym.subterms(preds):
